@@ -116,8 +116,9 @@ def chunks(it, size):
         yield buf
 
 
-def shrink(mod, case, budget=400):
-    """Greedy shrinking while the verdict stays a failure of the same kind."""
+def shrink(mod, case, budget=400, known_sigs=()):
+    """Greedy shrinking while the verdict stays a failure of the same kind (and does not turn into a case that
+    merely reproduces a listed known finding: a new violation must not be shrunk into an old one)."""
     if not hasattr(mod, 'shrink'):
         return case
     cur = case
@@ -136,7 +137,13 @@ def shrink(mod, case, budget=400):
                 res = eval_cases(mod, batch)
             except Exception:
                 continue
-            hit = next((c for c, io, rep, v in res if not v['ok'] and v.get('kind') == cur_kind), None)
+            def _sig(c, io, rep, v):
+                try:
+                    return mod.signature(c, io, rep, v) if hasattr(mod, 'signature') else None
+                except Exception:
+                    return None
+            hit = next((c for c, io, rep, v in res if not v['ok'] and v.get('kind') == cur_kind
+                        and (not known_sigs or _sig(c, io, rep, v) not in known_sigs)), None)
             if hit is not None:
                 cur = hit
                 improved = True
@@ -283,8 +290,9 @@ def run_check(prop, tier, seed, jobs, budget_s):
     property_fail = [x for x in new_fails if x[3].get('kind') == 'property']
     corr_fail = [x for x in new_fails if x[3].get('kind') != 'property']
 
+    ksigs = {f.get('signature') for f in findings if f.get('signature')}
     for c, io, rep, v in property_fail[:3]:
-        sc = shrink(mod, c)
+        sc = shrink(mod, c, known_sigs=ksigs)
         c2, io2, rep2, v2 = eval_cases(mod, [sc])[0]
         sig = mod.signature(c2, io2, rep2, v2) if hasattr(mod, 'signature') else None
         kf = next((f for f in findings if sig is not None and f.get('signature') == sig), None)
